@@ -118,7 +118,7 @@ def static_compare(prog: Program, ref: Dict[str, Any], Model, symbols) -> List[s
 # ---------------------------------------------------------------------------
 def equivalence(prog: Program, ref: Dict[str, Any], Model, symbols, *, spelling: str = 'pos', check_text: bool = True,
                 check_reads: bool = True, runner: Optional[Callable] = None, budget_s: float = 120,
-                max_candidates: int = 2) -> Dict[str, Any]:
+                max_candidates: int = 2, range_from: str = 'reference') -> Dict[str, Any]:
     """Explore `_evaluate(t)` on symbolic series against the AST interpreter.
 
     Returns stats, `bad` (list of replay-able discrepancy records).
@@ -129,8 +129,12 @@ def equivalence(prog: Program, ref: Dict[str, Any], Model, symbols, *, spelling:
     ctx = Ctx(budget_s=budget_s)
     names = list(dict.fromkeys(ref['names'] + list(Model.NAMES)))
     lags, leads = ref['lags'], ref['leads']
+    if range_from == 'model':
+        # C04(a): the periods the real iter_periods() yields for the model's own LAGS/LEADS (C03.3 ties the
+        # default range to these attributes); a too-small LAGS must show up as a wrapped / out-of-span access
+        lags, leads = int(Model.LAGS), int(Model.LEADS)
     tz, Lz = z3.Int('t'), z3.Int('L')
-    ctx.assume(Lz >= lags + leads + 1, f'L >= lags+leads+1 = {lags + leads + 1} (reference lags/leads)')
+    ctx.assume(Lz >= lags + leads + 1, f'L >= lags+leads+1 = {lags + leads + 1} ({range_from} lags/leads)')
     if spelling == 'pos':
         ctx.assume(z3.And(tz >= lags, tz <= Lz - 1 - leads), 'lags <= t <= L-1-leads (feasible period, positive spelling)')
     else:
@@ -326,7 +330,7 @@ def replay_values(prog: Program, Model, w: dict, runner: Optional[Callable] = No
                 io = _outcome(impl)
                 funcs = dict(REF_FUNCS)
                 funcs['myexp'] = _c_myexp
-                ro = _outcome(lambda: run_reference(prog, Env(ser, t, funcs)))
+                ro = _outcome(lambda: run_reference(prog, Env(ser, t, funcs, strict_L=L)))
             if io != ro:
                 bad.append(f'trial {trial}: outcome impl={io} ref={ro} (t={t}, L={L})')
                 break
